@@ -124,10 +124,15 @@ def confirm_accessors(check, r):
                               {"op": "bijoy", "text": "হাই"}, {"op": "bijoy", "text": "c"},
                               {"op": "suggestion_new", "aux": "..", "items": [[0, "।", 0], [3, "(।)", 2], [2, "১২", 10], [2, "ab", 10]], "sel": 0, "ansi": ansi},
                               {"op": "bijoy", "text": "।"}, {"op": "bijoy", "text": "(।)"}, {"op": "bijoy", "text": "১২"}, {"op": "bijoy", "text": "ab"},
-                              {"op": "suggestion_new", "single": "।", "ansi": ansi}]})
+                              {"op": "suggestion_new", "single": "।", "ansi": ansi},
+                              # the auxiliary text is the composition as it is (Bengali in the fixed method), whatever the encoding of the pre-edit text
+                              {"op": "suggestion_new", "aux": "হাই", "items": [[0, "হাই", 0]], "sel": 0, "ansi": ansi}]})
     out = run_replay(scs)
     for sc, o, ansi in zip(scs, out, (False, True)):
-        full, single, empty, b0, b1, full2, c0, c1, c2, c3, single2 = o["results"]
+        full, single, empty, b0, b1, full2, c0, c1, c2, c3, single2, full3 = o["results"]
+        if "panic" in full3 or full3.get("suggestion", {}).get("aux") != "হাই":
+            return dict(key="suggestion read-out", what="a list suggestion built with auxiliary text 'হাই' and ansi=%s reports the auxiliary text %r" % (ansi, full3.get("suggestion", {}).get("aux")),
+                        replay=dict(scenario=sc, observed=[full3]))
         if "panic" in full2 or "panic" in single2:
             return dict(key="suggestion accessor panics", what="accessor panics", replay=dict(scenario=sc, observed=o))
         f2 = full2["suggestion"]
